@@ -890,6 +890,9 @@ func c08Prefixes(res *hlib.Result, v *Vector, d namedDecoder, enc []byte, sh str
 			if dataEOF && k == 0 {
 				continue
 			}
+			if pass == 2 && !hlib.Thorough() && (len(enc)+k+int(hlib.Seed()))%3 != 0 {
+				continue // quick tier: a seeded third of the prefixes from a *bytes.Buffer
+			}
 			var derr error
 			inDataEOF = dataEOF
 			if pass == 2 {
